@@ -210,8 +210,48 @@ def f_no_mutable_defaults(sess, tier):
          "%d functions inspected; %s" % (n, "; ".join(bad) or "no mutable default"))
 
 
+def f_store_durability_untouched(sess, tier):
+    """C09 assumes SQLite's transaction atomicity and durability as shipped.  That assumption is only
+    as good as the connection settings: a PRAGMA (journal_mode, synchronous, locking_mode, ...) or a
+    connection/engine event listener that issues one changes what a commit guarantees.  Checked over
+    the whole package: no string containing PRAGMA, no connection- or transaction-level sqlalchemy
+    event listener (attribute-level listeners of the mapped classes are not concerned)."""
+    import ast
+    import os
+    from . import extract
+    root = os.path.join(extract.repo(), 'kmip')
+    bad, n = [], 0
+    for d, _, files in os.walk(root):
+        if os.sep + 'tests' in d:
+            continue
+        for f in files:
+            if not f.endswith('.py'):
+                continue
+            p = os.path.join(d, f)
+            try:
+                tree = ast.parse(open(p).read())
+            except Exception as e:
+                bad.append("%s does not parse: %s" % (p, e))
+                continue
+            n += 1
+            rel = os.path.relpath(p, extract.repo())
+            for node in ast.walk(tree):
+                if isinstance(node, ast.Constant) and isinstance(node.value, str) and 'pragma' in node.value.lower() \
+                        and not isinstance(getattr(node, '_parent_expr', None), ast.Expr):
+                    bad.append("%s:%d issues %r" % (rel, node.lineno, node.value[:60]))
+                if isinstance(node, ast.Call) and isinstance(node.func, ast.Attribute) and \
+                        node.func.attr in ('listens_for', 'listen') and len(node.args) >= 2 and \
+                        isinstance(node.args[1], ast.Constant) and node.args[1].value in (
+                            'connect', 'first_connect', 'engine_connect', 'begin', 'checkout', 'checkin',
+                            'before_cursor_execute', 'after_cursor_execute', 'commit', 'before_commit', 'after_begin'):
+                    bad.append("%s:%d registers a connection-level sqlalchemy listener (%s)" % (
+                        rel, node.lineno, ast.unparse(node)[:80]))
+    _rec(sess, "fact:C09/connection-settings-of-the-store-are-sqlites-defaults", not bad,
+         "%d modules inspected; %s" % (n, "; ".join(bad) or "no PRAGMA, no connection-level listener"))
+
+
 def units(names, ctx):
-    table = {"no_mutable_defaults": f_no_mutable_defaults, "wrappers_truthy": f_wrappers_truthy, "tag_blocks": f_tag_blocks, "crypto_wrapped": f_crypto_wrapped, "lock": f_lock, "state_frame": f_state_frame, "autoincrement": f_autoincrement,
+    table = {"store_durability": f_store_durability_untouched, "no_mutable_defaults": f_no_mutable_defaults, "wrappers_truthy": f_wrappers_truthy, "tag_blocks": f_tag_blocks, "crypto_wrapped": f_crypto_wrapped, "lock": f_lock, "state_frame": f_state_frame, "autoincrement": f_autoincrement,
              "versions": f_versions}
     out = []
     for nm in names:
